@@ -577,14 +577,15 @@ def task_numeric(tier, seed):
 
 
 def tasks(prop, tier, seed):
+    lim = 200.0 if tier == "quick" else 900.0
     return [
-        ("distance_to/ortho", task_ortho, (seed,), 600.0),
-        ("distance_to/ortho-2atoms", task_ortho, (seed, True), 600.0),
-        ("distance_to/symmetric", task_symmetric, (seed,), 600.0),
-        ("distance_to/shift-other", task_shift, (seed, "other"), 600.0),
-        ("distance_to/shift-self", task_shift, (seed, "self"), 600.0),
-        ("distance_to/invflag", task_invflag, (seed,), 600.0),
-        ("distance_to/numeric", task_numeric, (tier, seed), 600.0),
+        ("distance_to/ortho", task_ortho, (seed,), lim),
+        ("distance_to/ortho-2atoms", task_ortho, (seed, True), lim),
+        ("distance_to/symmetric", task_symmetric, (seed,), lim),
+        ("distance_to/shift-other", task_shift, (seed, "other"), lim),
+        ("distance_to/shift-self", task_shift, (seed, "self"), lim),
+        ("distance_to/invflag", task_invflag, (seed,), lim),
+        ("distance_to/numeric", task_numeric, (tier, seed), lim),
     ]
 
 
